@@ -54,7 +54,7 @@ let tables_of (x : sexp) : tables =
                                         eo_str = (match strv with A "none" -> None | v -> Some (cstr v));
                                         eo_unx = opt_span unx })
     | L [A "E"; A key; A "err"; pos] -> Hashtbl.replace t.te key (OErr (oerr_of pos))
-    | L [A "P"; A key; A "ok"; n; p] -> Hashtbl.replace t.tp key (OOk { po_n = nat_of n; po_p = path_of p })
+    | L [A "P"; A key; A "ok"; n; p; unx] -> Hashtbl.replace t.tp key (OOk { po_n = nat_of n; po_p = path_of p; po_unx = opt_span unx })
     | L [A "P"; A key; A "err"; pos] -> Hashtbl.replace t.tp key (OErr (oerr_of pos))
     | L [A "C"; A key; A "ok"; n; u; inputs; isp; unx] ->
         Hashtbl.replace t.tc key (OOk { co_n = nat_of n; co_u = uexpr_of u; co_inputs = nat_of inputs;
